@@ -9,6 +9,7 @@
 package c16
 
 import (
+	"bytes"
 	"encoding/csv"
 	"errors"
 	"io"
@@ -235,7 +236,9 @@ func tableFromJSON(v any) [][]string {
 var dstKinds = []string{"csvwriter", "customwriter", "writer", "readerfrom", "binunm", "precords", "pbytes", "pstring",
 	"nilprecords", "nilpbytes", "nil", "value", "pint"}
 var srcKinds = []string{"csvreader", "customreader", "reader", "readcloser", "writerto", "binm", "records", "bytes", "string",
-	"precords", "pbytes", "pstring", "nilprecords", "nilpstring", "nil", "int"}
+	"precords", "pbytes", "pstring", "seekbytes", "seekstrings", "nilprecords", "nilpstring", "nil", "int"}
+
+const nSupportedSrc = 14 // the first nSupportedSrc source kinds are the supported ones
 
 func mkCase(dir, kind, text string, o opts, skip, pre, chunk int, origin string) (M, bool) {
 	table, bad := refParse(text, o)
@@ -363,7 +366,7 @@ func generate(c *drv.Ctx) {
 		for _, dir := range []string{"consume", "produce"} {
 			kinds := dstKinds[:8]
 			if dir == "produce" {
-				kinds = srcKinds[:12]
+				kinds = srcKinds[:nSupportedSrc]
 			}
 			for _, kind := range kinds {
 				for _, skip := range []int{1, 2, 3, 6} {
@@ -389,6 +392,71 @@ func generate(c *drv.Ctx) {
 		}
 	}
 	c.Extra["reuse_cases"] = nReuse
+	// same variable: 2-3 Consume calls into ONE *[][]string variable, the caller keeps every delivered table
+	nSame := 0
+	for _, comma := range []byte{0, ';'} {
+		base := opts{Comma: comma, FPR: -1}
+		for _, skip := range []int{0, 1} {
+			for _, precap := range []int{0, 16} {
+				for ai, a := range []string{"five-rows", "plain3x2-noeol", "plain2x2", "one"} {
+					for bi, b := range []string{"five-rows", "plain3x2-noeol", "plain2x2", "one", "empty"} {
+						names := []string{a, b}
+						if (ai+bi)%2 == 0 {
+							names = append(names, "plain2x2")
+						}
+						o := base
+						o.Reuse = (ai+bi)%3 == 0
+						if d, ok := mkReuse("consume", "precords", names, o, skip, []int{0, 7}[nSame%2], "samevar"); ok {
+							d["samevar"], d["precap"] = true, precap
+							c.Case(d)
+							nSame++
+						}
+					}
+				}
+			}
+		}
+	}
+	c.Extra["samevar_cases"] = nSame
+	// a caller-supplied *csv.Reader that already carries LazyQuotes / TrimLeadingSpace / ReuseRecord, used with
+	// option sets that do not: all source kinds must agree under one option set
+	nFlags := 0
+	for _, tc := range texts {
+		for _, comma := range []byte{0, ';'} {
+			for _, fpr := range []int{0, -1} {
+				for fi, rf := range []M{{"lazy": true, "trim": false, "reuse": false}, {"lazy": false, "trim": true, "reuse": false},
+					{"lazy": false, "trim": false, "reuse": true}, {"lazy": true, "trim": true, "reuse": true}} {
+					for _, o := range []opts{{Comma: comma, FPR: fpr}, {Comma: comma, FPR: fpr, Lazy: fi == 1, Trim: fi == 0}} {
+						if d, ok := mkCase("produce", "csvreader", tc.text(o.effComma()), o, nFlags%2, 0, []int{0, 1, 7}[nFlags%3], "stale-flags:"+tc.name); ok {
+							d["rflags"] = rf
+							d["stale"] = true
+							c.Case(d)
+							nFlags++
+						}
+					}
+				}
+			}
+		}
+	}
+	// ... and the sequence: producer A (flag on) then producer B (flag off) on ONE reader
+	for _, comma := range []byte{0, ';'} {
+		for _, bName := range []string{"bare-quote", "bare-quote-last", "leading-space", "quote-then-text", "plain2x2", "embedded-quote"} {
+			for _, aOpts := range []opts{{Comma: comma, FPR: -1, Lazy: true}, {Comma: comma, FPR: -1, Trim: true}, {Comma: comma, FPR: -1, Lazy: true, Trim: true, Reuse: true}} {
+				bOpts := opts{Comma: comma, FPR: -1}
+				var calls []M
+				for i, nm := range []string{"plain2x2", bName} {
+					co := []opts{aOpts, bOpts}[i]
+					text := textByName(nm).text(co.effComma())
+					table, bad := refParse(text, co)
+					calls = append(calls, M{"text": trace.B(text), "table": tableJSON(table), "bad": bad, "opts": co.JSON()})
+				}
+				c.Case(M{"dir": "produce", "kind": "csvreader", "text": []int{}, "opts": bOpts.JSON(), "skip": 0, "pre": 0,
+					"chunk": []int{0, 7}[nFlags%2], "table": [][][]int{}, "bad": false, "calls": calls, "shared_reader": true,
+					"stale": true, "origin": "flag-sequence"})
+				nFlags++
+			}
+		}
+	}
+	c.Extra["stale_flag_cases"] = nFlags
 	// stress families: an io.WriterTo source whose malformed input stops the parser while a Write is still
 	// pending, repeated many thousand times from several goroutines under several GOMAXPROCS settings; the two
 	// goroutines of the WriterTo branch race for the error that is returned. One aggregated event per family.
@@ -489,7 +557,7 @@ func randomCase(rng *rand.Rand) M {
 			if dir == "consume" {
 				kind = kinds[rng.Intn(8)]
 			} else {
-				kind = kinds[rng.Intn(12)]
+				kind = kinds[rng.Intn(nSupportedSrc)]
 			}
 		}
 		skip := rng.Intn(len(ref) + 3)
@@ -513,7 +581,7 @@ func randomReuse(rng *rand.Rand) M {
 		dir := []string{"consume", "produce"}[rng.Intn(2)]
 		kind := dstKinds[rng.Intn(8)]
 		if dir == "produce" {
-			kind = srcKinds[rng.Intn(12)]
+			kind = srcKinds[rng.Intn(nSupportedSrc)]
 		}
 		var calls []M
 		ok := true
@@ -748,16 +816,54 @@ func execute(c *drv.Ctx, d M) bool {
 		return true
 	}
 	if cs, ok := d["calls"]; ok {
-		for i, cv := range drv.List(cs) {
+		env := &callEnv{}
+		if drv.Bool(d["samevar"]) {
+			// every call stores into the SAME variable; the caller keeps what each call delivered
+			var recs [][]string
+			if n := drv.Int(d["precap"]); n > 0 {
+				recs = make([][]string, 0, n)
+			}
+			env.shared = &recs
+		}
+		calls := drv.List(cs)
+		if drv.Bool(d["shared_reader"]) {
+			// ONE caller-supplied *csv.Reader over a stream that reports a (non-sticky) EOF after every text;
+			// each call has its own producer / option set
+			sc := streamkit.Script{Term: "eof"}
+			for i, cv := range calls {
+				t := trace.Str(drv.Map(cv)["text"])
+				part := script(t, chunk)
+				sc.Content = append(sc.Content, part.Content...)
+				for k, ch := range part.Chunks {
+					sc.Chunks = append(sc.Chunks, ch)
+					cond := "none"
+					if k == len(part.Chunks)-1 && i < len(calls)-1 {
+						cond = "eof"
+					}
+					sc.Conds = append(sc.Conds, cond)
+				}
+			}
+			env.srcOverride = csv.NewReader(streamkit.NewReader(sc))
+		}
+		for i, cv := range calls {
 			m := drv.Map(cv)
 			cl := call{text: trace.Str(m["text"]), ref: tableFromJSON(m["table"]), bad: drv.Bool(m["bad"])}
-			runCall(c, consumer, producer, kind, cl, o, 0, chunk, i+1)
+			co, cp := o, producer
+			if om, ok := m["opts"]; ok { // a differently configured producer for this call
+				co = optsFromJSON(om)
+				cp = runtime.CSVProducer(codecOpts(co, skip)...)
+			}
+			runCall(c, consumer, cp, kind, cl, co, 0, chunk, i+1, env)
 			nontrivial = nontrivial || len(cl.ref) > 0 || cl.bad
 		}
 		return nontrivial
 	}
 	cl := call{text: trace.Str(d["text"]), ref: tableFromJSON(d["table"]), bad: drv.Bool(d["bad"])}
-	runCall(c, consumer, producer, kind, cl, o, pre, chunk, 0)
+	env := &callEnv{}
+	if rf, ok := d["rflags"]; ok {
+		env.rflags = drv.Map(rf)
+	}
+	runCall(c, consumer, producer, kind, cl, o, pre, chunk, 0, env)
 	return len(cl.ref) > 0 || cl.bad
 }
 
@@ -828,8 +934,19 @@ func runStress(c *drv.Ctx, st M, text string, o opts, skip, chunk int) {
 }
 
 // runCall performs one call on the real codec and logs what it observably did.
-func runCall(c *drv.Ctx, consumer runtime.Consumer, producer runtime.Producer, kind string, cl call, o opts, pre, chunk, idx int) {
+// callEnv is what several calls of one case share, and per-case extras.
+type callEnv struct {
+	shared      *[][]string  // the one *[][]string variable all calls store into
+	held        [][][]string // the table each earlier call delivered, as the caller kept it (slice headers)
+	srcOverride any          // the one caller-supplied source all calls read from
+	rflags      M            // flags the caller set on its *csv.Reader before handing it over
+}
+
+const preamble = "PREAMBLE LINE, not for the parser\n"
+
+func runCall(c *drv.Ctx, consumer runtime.Consumer, producer runtime.Producer, kind string, cl call, o opts, pre, chunk, idx int, env *callEnv) {
 	text, ref, bad := cl.text, cl.ref, cl.bad
+	retained := [][][][]int{}
 	var err error
 	var delivered [][]string
 	rp, aliasW, aliasA := true, false, false
@@ -860,6 +977,18 @@ func runCall(c *drv.Ctx, consumer runtime.Consumer, producer runtime.Producer, k
 			w := &binU{}
 			dst, after = w, bytesOut(func() []byte { return w.got })
 		case "precords":
+			if env.shared != nil {
+				dst, after = env.shared, func() {
+					recs := *env.shared
+					aliasW, aliasA = aliased(recs)
+					delivered = recs
+					for _, h := range env.held { // what the caller kept from the earlier calls
+						retained = append(retained, tableJSON(h))
+					}
+					env.held = append(env.held, recs)
+				}
+				break
+			}
 			recs := [][]string{}
 			for i := 0; i < pre; i++ {
 				recs = append(recs, []string{"pre", strings.Repeat("x", i)})
@@ -900,7 +1029,23 @@ func runCall(c *drv.Ctx, consumer runtime.Consumer, producer runtime.Producer, k
 		var src any
 		switch kind {
 		case "csvreader":
-			src = csv.NewReader(streamkit.NewReader(script(text, chunk)))
+			rd := csv.NewReader(streamkit.NewReader(script(text, chunk)))
+			if env.rflags != nil { // a reader the caller has configured for something else before
+				rd.LazyQuotes, rd.TrimLeadingSpace, rd.ReuseRecord = drv.Bool(env.rflags["lazy"]), drv.Bool(env.rflags["trim"]), drv.Bool(env.rflags["reuse"])
+			}
+			src = rd
+		case "seekbytes":
+			rd := bytes.NewReader([]byte(preamble + text))
+			if _, err := io.CopyN(io.Discard, rd, int64(len(preamble))); err != nil {
+				panic(err)
+			}
+			src = rd
+		case "seekstrings":
+			rd := strings.NewReader(preamble + text)
+			if _, err := io.CopyN(io.Discard, rd, int64(len(preamble))); err != nil {
+				panic(err)
+			}
+			src = rd
 		case "customreader":
 			src = &customReader{recs: ref, bad: bad}
 		case "reader":
@@ -936,6 +1081,9 @@ func runCall(c *drv.Ctx, consumer runtime.Consumer, producer runtime.Producer, k
 		default:
 			panic("c16: unknown source kind " + kind)
 		}
+		if env.srcOverride != nil {
+			src = env.srcOverride
+		}
 		run = func() { err = producer.Produce(w, src) }
 		after = func() {
 			delivered, rp = reparse(w.Got, o)
@@ -962,5 +1110,5 @@ func runCall(c *drv.Ctx, consumer runtime.Consumer, producer runtime.Producer, k
 		ec = "none"
 	}
 	c.W.Event("csv", M{"i": idx, "err": ec, "delivered": tableJSON(delivered), "alias": aliasW || aliasA,
-		"alias_write": aliasW, "alias_append": aliasA, "rp": rp, "closes": closes, "scloses": scloses, "panic": panicked})
+		"alias_write": aliasW, "alias_append": aliasA, "retained": retained, "rp": rp, "closes": closes, "scloses": scloses, "panic": panicked})
 }
